@@ -37,6 +37,7 @@ type kase struct {
 	Enc     int           `json:"enc,omitempty"`
 	QID     bool          `json:"qid,omitempty"`
 	QT      bool          `json:"qtemplate,omitempty"` // FASTA read into a quality-carrying template (letters appended line by line)
+	Protein bool          `json:"protein,omitempty"`   // FASTA over the protein alphabet (its stop letter '*' included)
 	Prefix  bool          `json:"prefixed,omitempty"`  // FASTA written and read with IDPrefix "#>" and SeqPrefix "##" (as embedded in other formats)
 	BedTyp  int           `json:"bedtyp,omitempty"`
 	Bed     []featgen.Bed `json:"bed,omitempty"`
@@ -131,13 +132,13 @@ func check(c *enum.Ctx, k kase) {
 				w := fasta.NewWriter(&buf, k.Width)
 				w.IDPrefix, w.SeqPrefix = []byte("#>"), []byte("##")
 				for _, r := range recs {
-					if _, err = w.Write(seqgen.Make(r, false, false, alphabet.Sanger)); err != nil {
+					if _, err = w.Write(seqgen.Make(r, false, k.Protein, alphabet.Sanger)); err != nil {
 						break
 					}
 				}
 				text = buf.Bytes()
 			} else if k.Format == "fasta" {
-				text, err = seqgen.WriteFasta(recs, false, false, k.Width)
+				text, err = seqgen.WriteFasta(recs, false, k.Protein, k.Width)
 			} else {
 				text, err = seqgen.WriteFastq(recs, true, enc, k.QID)
 			}
@@ -149,7 +150,7 @@ func check(c *enum.Ctx, k kase) {
 			var got []seqgen.Rec
 			comp := seqgen.NewCompanion(k.Format) // a second reader over another layout, advanced alternately
 			if k.Format == "fasta" {
-				rd := fasta.NewReader(bytes.NewReader(variant), seqgen.Template(k.QT, false, alphabet.Sanger))
+				rd := fasta.NewReader(bytes.NewReader(variant), seqgen.Template(k.QT, k.Protein, alphabet.Sanger))
 				if k.Prefix {
 					rd.IDPrefix, rd.SeqPrefix = []byte("#>"), []byte("##")
 				}
@@ -296,7 +297,7 @@ func layouts(n int, blankSites []int, trailing bool, pairs bool) []layout {
 }
 
 func run(c *enum.Ctx) {
-	c.Rule("FASTA read into plain and quality-carrying templates, and written/read with ID and sequence-line prefixes; every FASTA/FASTQ file read alternately with a companion reader of another configuration; valid files from the C01/C02 generators (<=2 records; FASTA also a 12289-letter record) x layout transformations: FASTA re-wrap at widths {1,2,3,60,4095,4096,4097,20000}, a blank line - empty or holding white space only - at every line boundary (thorough: every pair), trailing ' ', tab, ' tab' on each line and on all lines, CRLF, no final newline, and their pairwise combinations; FASTQ: CRLF, blank lines at record boundaries, trailing blanks, no final newline; BED (every type) and GFF (features, regions, inline sequences last or not): CRLF x final newline; oracle: the record list of the variant equals that of the canonical file; non-trivial = variants that differ from the canonical text")
+	c.Rule("FASTA read into plain and quality-carrying templates, and written/read with ID and sequence-line prefixes; every FASTA/FASTQ file read alternately with a companion reader of another configuration; valid files from the C01/C02 generators (DNA and protein records, the protein stop letter alone on a line) (<=2 records; FASTA also a 12289-letter record) x layout transformations: FASTA re-wrap at widths {1,2,3,60,4095,4096,4097,20000}, a blank line - empty or holding white space only - at every line boundary (thorough: every pair), trailing ' ', tab, ' tab' on each line and on all lines, CRLF, no final newline, and their pairwise combinations; FASTQ: CRLF, blank lines at record boundaries, trailing blanks, no final newline; BED (every type) and GFF (features, regions, inline sequences last or not): CRLF x final newline; oracle: the record list of the variant equals that of the canonical file; non-trivial = variants that differ from the canonical text")
 	c.Assume("blank lines inside a FASTQ record and trailing blanks/blank lines in BED/GFF are not covered by the statement and are not generated")
 	var cases []kase
 	recs := []seqgen.Rec{
@@ -339,6 +340,27 @@ func run(c *enum.Ctx) {
 		for _, n := range []int{4095, 4096, 4097, 8192, 12288} {
 			for _, l := range layouts(0, nil, false, false) {
 				cases = append(cases, kase{Format: "fasta", Recs: last, LongLen: n, Width: w, L: l})
+			}
+		}
+	}
+	// protein records: the stop letter alone on a line, first or last on a line
+	prots := []seqgen.Rec{{Name: "p", Desc: "d", Letters: "aw*"}, {Name: "q", Letters: "*"}, {Name: "r", Letters: "*a*w**"}, {Name: "s", Letters: "w"}}
+	for _, w := range []int{1, 2, 3, 60} {
+		for i := range prots {
+			for j := range prots {
+				rl := []seqgen.Rec{prots[i], prots[j]}
+				text, _ := seqgen.WriteFasta(rl, false, true, w)
+				n := len(splitLines(text))
+				sites := make([]int, n+1)
+				for x := range sites {
+					sites[x] = x
+				}
+				for _, l := range layouts(n, sites, true, false) {
+					if len(l.Trail) > 0 && (i+j)%2 == 1 {
+						continue
+					}
+					cases = append(cases, kase{Format: "fasta", Recs: rl, Width: w, Protein: true, L: l})
+				}
 			}
 		}
 	}
